@@ -126,6 +126,33 @@ def helper_of_byte(v, m):
     return ld, _helper_zero[key]
 
 
+def flag_of(c):
+    """(name of the SSA value tested, polarity of the true edge) for a branch on a Boolean variable: flag, !flag, flag != 0 ..."""
+    pol = True
+    v = c
+    for _ in range(8):
+        i = v.inst
+        if i is None:
+            return None
+        if i.op == "phi":
+            return (i.name, pol)
+        if i.op in ("zext", "trunc"):
+            v = i.ops[0]
+        elif i.op == "xor" and any(o.is_const_int() and o.uval == 1 for o in i.ops):
+            v = [o for o in i.ops if not o.is_const_int()][0]
+            pol = not pol
+        elif i.op == "icmp" and i.pred in ("eq", "ne") and any(o.is_const_int() and o.uval == 0 for o in i.ops):
+            v = [o for o in i.ops if not o.is_const_int()]
+            if not v:
+                return None
+            v = v[0]
+            if i.pred == "eq":
+                pol = not pol
+        else:
+            return None
+    return None
+
+
 def cond_facts(c, m):
     """(facts on the true edge, facts on the false edge) of branch condition value c."""
     i = c.inst
@@ -249,6 +276,7 @@ class Cursor:
         self.findings = []      # (rule, inst, ok, detail)
         self.n_loads = self.n_advances = 0
         self.span_calls = {}
+        self.colon_scans = set()
 
     def gep_alias(self, S, i):
         """A GEP / bitcast result is a new SSA name for root+off: copy facts."""
@@ -275,6 +303,7 @@ class Cursor:
                 k = pkey(i.ops[0], m)
                 if k == (self.cur_arg, 0):
                     S.add(("src", i.name))
+                    S.discard(("nocolon",))
                     # a second read of the cursor cell with no store in between yields the same pointer: what is known about
                     # the cell's content (r + o) holds for the new name
                     for pv in [f for f in S if f[0] == "pval"]:
@@ -314,6 +343,7 @@ class Cursor:
                     S.add(("chr", i.name))
                 if c.is_const_int() and c.uval == ord(":"):
                     S.add(("no-nl",))           # the 'address:' prefix of this line has been looked for
+                    self.colon_scans.add(i.name)
             elif i.op == "call" and i.callee == "strncmp":
                 # reads from each operand until a difference, a NUL or n bytes: fine when it starts inside the string
                 for a in i.args[:2]:
@@ -376,7 +406,16 @@ class Cursor:
         out = {}
         if t.op == "br" and t.cond is not None:
             tf, ff = cond_facts(t.cond, self.m)
-            for succ, facts in ((t.succs[0], tf), (t.succs[1], ff)):
+            fl = flag_of(t.cond)
+            for succ, facts, edge_true in ((t.succs[0], tf, True), (t.succs[1], ff, False)):
+                facts = list(facts)
+                # a search for ':' from inside the string that found nothing: there is no 'address:' prefix on this line or on
+                # any later one (the cursor only moves forward)
+                if any(f[0] == "null" and f[1] in self.colon_scans for f in facts):
+                    facts.append(("nocolon",))
+                # a branch on a flag that is only ever set after such a search
+                if fl is not None and fl[1] == edge_true and ("impl", fl[0]) in S:
+                    facts.append(("nocolon",))
                 st = close((S | set(facts)) - ({("no-nl",)} if ("isnl",) in facts else set()))
                 # an edge that needs a pointer to be NULL and non-NULL at once is infeasible
                 if any(f[0] == "null" and ("nnp", f[1]) in st for f in st):
@@ -395,6 +434,17 @@ class Cursor:
         for i in blk.insts:
             if i.op != "phi":
                 break
+            if i.ty in ("i1", "i8", "i32"):
+                # ('impl', flag): whenever this value is non-zero, a search for ':' has come up empty ('nocolon')
+                for v, b in i.incoming:
+                    if b != pred.name:
+                        continue
+                    if v.is_const_int():
+                        if v.uval == 0 or ("nocolon",) in S:
+                            S2.add(("impl", i.name))
+                    elif v.k == "inst" and ("impl", v.name) in S:
+                        S2.add(("impl", i.name))
+                continue
             if i.ty != "i8*":
                 continue
             for v, b in i.incoming:
@@ -560,9 +610,10 @@ def check_return_edge(chk, m, fn, t, v, pred, blk, part, S):
                if okp else "the optional \"0x\" prefix is not looked for at the position of the digits (it is tested before the white "
                "space is skipped, or not at all): \" 0x12\" is not parsed", t.loc, fn.name)
     NL = ("no-nl",)
-    chk.ob("H2.line-prefix", where, NL in S,
+    looked = NL in S or ("nocolon",) in S
+    chk.ob("H2.line-prefix", where, looked,
            "a byte is only parsed after the current line's 'address:' prefix has been looked for: every path that moves past a "
-           "newline re-runs the prefix skip before parsing digits" + ("" if NL in S else
+           "newline re-runs the prefix skip before parsing digits (or an earlier search of the rest of the text found no ':' at all)" + ("" if looked else
            " - here a path skips a newline and parses on, so the address digits of later lines are returned as data"),
            t.loc, fn.name)
 
@@ -979,19 +1030,58 @@ def analyse_dumper(chk, m, fn, depth=0, top=True):
         if paths.is_assert_fail_path(p):
             continue
         truncated = any(v >= 2 for v in p.edge_count.values())
-        units = []          # ('pair', event) | ('call', event, n expr) | ('nl',)
+        units = []          # ('pair', event, hi, lo) | ('call', event, n expr) | ('nl', event)
         unknown_call = None
-        for e in p.events:
+        # the characters written on this path, in order, whichever stdio call carries them
+        stream = []         # (expression of the character | ('c', 8, code), event)
+        farg = [i for i, a in enumerate(fn.args) if a.ty.startswith("%struct._IO_FILE") or "FILE" in a.ty]
+        file_ok = lambda x: not farg or strip_casts(x) == ("arg", farg[0])
+
+        def chars_at(ptr, n, k_ev):
+            """the n characters at ptr when event k_ev runs: a string literal, or a local array filled by stores on this path"""
+            root, off, var = ptr_parts(ptr)
+            if var:
+                return None
+            if root[0] == "g":
+                g = m.globals.get(root[1])
+                if g and g.get("init", {}).get("k") == "cdata" and off + n <= len(g["init"]["elems"]):
+                    return [("c", 8, c) for c in g["init"]["elems"][off:off + n]]
+                return None
+            out = []
+            for j in range(n):
+                want = paths.mkptr(root, off + j)
+                st = [e2 for e2 in p.events[:k_ev] if e2.kind == "store" and e2.ptr == want]
+                if not st:
+                    return None
+                out.append(st[-1].val)
+            return out
+        for k_ev, e in enumerate(p.events):
             if e.kind != "call" or not isinstance(e.callee, str) or e.callee.startswith("llvm."):
                 continue
-            if e.callee == "fprintf":
+            got = None
+            if e.callee == "fprintf" and file_ok(e.args[0]):
                 s_ = fmt_string(m, e.args[1])
-                if s_ == "%c%c":
-                    units.append(("pair", e))
-                elif s_ == "\n":
-                    units.append(("nl", e))
-                else:
+                if s_ is not None:
+                    got, rest, j = [], list(e.args[2:]), 0
+                    while j < len(s_) and got is not None:
+                        if s_[j] == "%" and s_[j + 1:j + 2] == "c" and rest:
+                            got.append(rest.pop(0))
+                            j += 2
+                        elif s_[j] == "%":
+                            got = None
+                        else:
+                            got.append(("c", 8, ord(s_[j])))
+                            j += 1
+                if got is None:
                     unknown_call = "fprintf(%r)" % s_
+                    continue
+            elif e.callee in ("fputc", "putc", "fputc_unlocked", "putc_unlocked", "_IO_putc") and file_ok(e.args[1]):
+                got = [e.args[0]]
+            elif e.callee == "fputs" and file_ok(e.args[1]):
+                s_ = fmt_string(m, e.args[0])
+                got = [("c", 8, ord(c)) for c in s_] if s_ is not None else None
+            elif e.callee in ("fwrite", "fwrite_unlocked") and file_ok(e.args[3]) and e.args[1][0] == "c" and e.args[2][0] == "c":
+                got = chars_at(e.args[0], e.args[1][2] * e.args[2][2], k_ev)
             elif e.callee in paths.pure_functions(m):
                 continue
             elif m.has_fn(e.callee) and depth == 0:
@@ -1000,9 +1090,27 @@ def analyse_dumper(chk, m, fn, depth=0, top=True):
                 if not gi:
                     unknown_call = e.callee
                 else:
-                    units.append(("call", e, e.args[gi[-1]]))
+                    stream.append((("helper", e.args[gi[-1]]), e))
+                continue
+            if got is None:
+                unknown_call = unknown_call or e.callee
+                continue
+            stream += [(c_, e) for c_ in got]
+        pend = None
+        for c_, e in stream:
+            if c_[0] == "helper":
+                if pend is not None:
+                    unknown_call = unknown_call or "half a pair before a call of %s" % e.callee
+                units.append(("call", e, c_[1]))
+            elif c_[0] == "c" and c_[2] == 10 and pend is None:
+                units.append(("nl", e))
+            elif pend is None:
+                pend = (c_, e)
             else:
-                unknown_call = e.callee
+                units.append(("pair", pend[1], pend[0], c_))
+                pend = None
+        if pend is not None and not truncated:
+            unknown_call = unknown_call or "an odd number of characters is written on this path"
         if unknown_call:
             chk.unknown("H4.dump-structure", fn.name, "call of %s is not modelled" % unknown_call)
             return False
@@ -1017,12 +1125,12 @@ def analyse_dumper(chk, m, fn, depth=0, top=True):
             if u[0] != "pair":
                 continue
             e = u[1]
-            a, b = strip_casts(e.args[2]), strip_casts(e.args[3])
+            arg_hi, arg_lo = u[2], u[3]
 
             # decided over all 256 byte values: the two characters printed for byte k are the hex digits of its high and low
             # nibble (hexchar and any conversion on the way are evaluated as written, sign extension included)
             want_ptr = paths.mkptr(("arg", parg), k)
-            byte_lds = set(x for arg in (e.args[2], e.args[3]) for x in paths.subexprs(arg)
+            byte_lds = set(x for arg in (arg_hi, arg_lo) for x in paths.subexprs(arg)
                            if x[0] == "ld" and ptr_parts(x[1])[0][0] != "g")
             if any(x[1] != want_ptr or x[2] != 1 for x in byte_lds) or not byte_lds:
                 okp = False
@@ -1044,7 +1152,7 @@ def analyse_dumper(chk, m, fn, depth=0, top=True):
                 for v in range(256):
                     env = Env({x: v for x in byte_lds})
                     try:
-                        ca_, cb_ = paths.eval_concrete(e.args[2], env) & 0xff, paths.eval_concrete(e.args[3], env) & 0xff
+                        ca_, cb_ = paths.eval_concrete(arg_hi, env) & 0xff, paths.eval_concrete(arg_lo, env) & 0xff
                     except paths.NoValue as nv:
                         okp = None
                         bad_pair = "pair argument not evaluable: %s" % fmt(nv.args[0])[:60]
